@@ -1136,6 +1136,73 @@ fn op_bitmask(c: &Value, ev: &mut Map<String, Value>) -> Result<(), String> {
     Ok(())
 }
 
+/// the native round-trip relation (C03 / C04) for one value: encode, strict decode, compare with Rust's own `==`
+fn native_roundtrip_ok(val: &Val) -> bool {
+    let mut w = VecWriter::new();
+    write_val(val, &mut w);
+    let octets = w.data;
+    match val {
+        Val::Msg(m) => {
+            let mut r = SliceReader::from(&octets[..]);
+            let res = Message::<&[u8]>::try_read_validate(&mut r, strict());
+            let eq = match (&res, m) {
+                (Ok(Message::Control(got)), Message::Control(orig)) => {
+                    let mut exp = orig.clone();
+                    exp.length = octets.len() as u16;
+                    *got == exp
+                }
+                (Ok(Message::Data(got)), Message::Data(orig)) => {
+                    let n = orig.offset.unwrap_or(0) as usize;
+                    got.is_prioritized == orig.is_prioritized
+                        && got.length == orig.length
+                        && got.tunnel_id == orig.tunnel_id
+                        && got.session_id == orig.session_id
+                        && got.ns_nr == orig.ns_nr
+                        && got.offset.is_none()
+                        && n <= orig.data.len()
+                        && got.data == &orig.data[n..]
+                }
+                _ => false,
+            };
+            eq && r.len() == 0
+        }
+        Val::Avp(a) => {
+            let mut r = SliceReader::from(&octets[..]);
+            let items = AVP::try_read_greedy(&mut r);
+            items.len() == 1 && items[0].as_ref().ok() == Some(a) && r.len() == 0
+        }
+    }
+}
+
+/// C03 / C04 with ONE numeric field of a value taken through its whole range (all 65 536 / 256 values): the
+/// relation decode_strict(encode(v)) = v is judged here with Rust's own equality; the values that fail are reported
+fn op_rt_sweep(c: &Value, ev: &mut Map<String, Value>) -> Result<(), String> {
+    let kind = c["kind"].as_str().unwrap_or("msg").to_string();
+    let path = c["path"].as_str().ok_or("path")?.to_string();
+    let lo = c["lo"].as_u64().unwrap_or(0);
+    let hi = c["hi"].as_u64().unwrap_or(65535);
+    let mut v = c["v"].clone();
+    if v.pointer(&path).is_none() {
+        return Err(format!("no such field {path}"));
+    }
+    let mut bad: Vec<u64> = Vec::new();
+    let mut tested = 0u64;
+    for x in lo..=hi {
+        *v.pointer_mut(&path).unwrap() = json!(x);
+        let val = val_from(&kind, &v)?;
+        tested += 1;
+        let ok = matches!(guarded(|| native_roundtrip_ok(&val)), Ok(true));
+        if !ok && bad.len() < 16 {
+            bad.push(x);
+        }
+    }
+    ev.insert("out".into(), json!({"t": "ok"}));
+    ev.insert("bad".into(), json!(bad));
+    ev.insert("tested".into(), json!(tested));
+    ev.insert("want".into(), json!(hi - lo + 1));
+    Ok(())
+}
+
 /// C17 over ALL 2^32 wire words of one bitmask kind (in `chunks` parallel threads): the two accessors must equal
 /// the bits the constructor sets, and decode-then-encode must give the word back.  Reports the constructor words
 /// (so that the specification can check them against the pinned layout) and the first words that fail.
@@ -1413,6 +1480,7 @@ pub fn run_op(c: &Value, ev: &mut Map<String, Value>) -> Result<(), String> {
         "enum_names" => op_enum_names(c, ev),
         "bitmask" => op_bitmask(c, ev),
         "bitmask_sweep" => op_bitmask_sweep(c, ev),
+        "rt_sweep" => op_rt_sweep(c, ev),
         "render" => op_render(c, ev),
         "cursor" => op_cursor(c, ev),
         "vecwriter" => op_vecwriter(c, ev),
